@@ -44,6 +44,15 @@ def obfuscator_entries(cc, plist):
                 for k, v in sub.items():
                     elt = elt.replace("(%s," % k, "(%s," % v)
                 return ap[0], g.iter, atoms, elt, U(g.target), bool(exits)
+            # for name, obf in sorted(self.obfuscate.items()):  obf is self.obfuscate[name] (neither rebound in the body)
+            if isinstance(lp.target, ast.Tuple) and len(lp.target.elts) == 2 and all(isinstance(e, ast.Name) for e in lp.target.elts) and _items_of_obfuscate(it):
+                import re
+                kv, vv = [e.id for e in lp.target.elts]
+                if not assigns_to(lp.body, kv) and not assigns_to(lp.body, vv):
+                    rx = re.compile(r"(?<![\w.])%s(?!\w)" % re.escape(vv))
+                    rep = "self.obfuscate[%s]" % kv
+                    atoms = set((rx.sub(rep, t), p) for t, p in atoms)
+                    return ap[0], it, atoms, rx.sub(rep, U(ap[0].args[0])), kv, bool(exits)
             return ap[0], it, atoms, U(ap[0].args[0]), U(lp.target), bool(exits)
     for x in find_calls(cc.body, attr="extend"):
         if U(x.func.value) == plist and x.args and isinstance(x.args[0], (ast.GeneratorExp, ast.ListComp)) and "self.obfuscate" in U(x):
@@ -58,12 +67,20 @@ def obfuscator_entries(cc, plist):
     return None
 
 
+def _items_of_obfuscate(it):
+    """self.obfuscate.items() possibly wrapped in sorted()/list(): pairs (name, self.obfuscate[name])."""
+    e = it
+    while isinstance(e, ast.Call) and call_name(e) in ("sorted", "list") and len(e.args) == 1 and not e.keywords:
+        e = e.args[0]
+    return U(e) == "self.obfuscate.items()"
+
+
 def name_set_meaning(expr, cc, loopvar, atoms):
     """What the iteration ranges over: (ordered?, over all keys of self.obfuscate?, minus no_obfuscate?) from the iterable and the filter atoms."""
     t = U(expr)
     ordered = isinstance(expr, ast.Call) and call_name(expr) == "sorted" and not expr.keywords
     inner = U(expr.args[0]) if ordered and expr.args else t
-    over_all = any(k in inner for k in ("self.obfuscate.keys()", "set(self.obfuscate)", "self.obfuscate)")) or inner == "self.obfuscate"
+    over_all = any(k in inner for k in ("self.obfuscate.keys()", "set(self.obfuscate)", "self.obfuscate)")) or inner in ("self.obfuscate", "self.obfuscate.items()")
     minus = "no_obfuscate" in inner and " - " in inner or ".difference(" in inner and "no_obfuscate" in inner
     rest = set(atoms)
     for a in list(rest):
@@ -112,3 +129,19 @@ def reversal(cc, result):
         if isinstance(r, ast.Return) and r.value is not None and U(r.value) in ("%s[::-1]" % result, "list(reversed(%s))" % result):
             return "copy", r
     return None, None
+
+
+def ensure_line_loop(cc, lines):
+    """View: when clean_content has no ``for`` over the lines but builds its result with a list comprehension (possibly fed by a
+    one-use generator over the lines), read the comprehension as the loop it abbreviates.  Idempotent."""
+    from ..util import line_loop
+    from ..normal import desugar_list_comprehension
+    if getattr(cc, "_line_loop_view", False):
+        return
+    cc._line_loop_view = True
+    if [s for s in cc.body if isinstance(s, ast.For) and line_loop(s, lines)[0] is not None]:
+        return
+    for st in list(cc.body):
+        if isinstance(st, ast.Assign) and isinstance(st.value, ast.ListComp) and len(st.targets) == 1 and isinstance(st.targets[0], ast.Name):
+            if desugar_list_comprehension(cc, st):
+                break
